@@ -8,11 +8,13 @@
      otherwise starts a new sharedResourceInformer with refCount 1.  Each call
      returns a NEW subscription (ResourceInformer/informerWrapper) that stays
      bound to the sharedResourceInformer it was created for (st_sub).
+   - ResourceInformer.Close(): closeOnce.Do(closeFn) — only the first Close through
+     a subscription reaches closeFn (st_closed), later ones do nothing.
    - closeFn (one per sharedResourceInformer, closing over ITS stopCh but reading
      the per-KEY refCount): count := refCount[key]-1; count>0 -> store it;
-     otherwise close(stopCh) — which PANICS if that informer's stopCh is already
-     closed — and delete both map entries.  Close() is not idempotent and does
-     not know which subscription called it.
+     otherwise close(stopCh) — which would PANIC if that informer's stopCh were
+     already closed (kept in the model, proved unreachable) — and delete both
+     map entries.
    - sharedEventHandler: one handler table per sharedResourceInformer, keyed by
      subscription; kept here as the list of entries (subscription, handler,
      own-timer?) in insertion order (the Go map's iteration order is random:
@@ -86,15 +88,16 @@ Record rstate := mkRs {
   rs_store : list nat        (* objects in the API server *)
 }.
 
-Record state := mkSt {
+Record state := mkState {
   st_ninf : nat; st_inf : nat -> inf;
   st_nsub : nat; st_sub : nat -> option nat;   (* subscription -> its informer *)
-  st_rs : nat -> rstate
+  st_rs : nat -> rstate;
+  st_closed : nat -> bool                      (* ResourceInformer.closeOnce has fired *)
 }.
 
 Definition inf0 : inf := mkInf 0 true [] [].
 Definition rs0 : rstate := mkRs None 0 0 [].
-Definition init : state := mkSt 0 (fun _ => inf0) 0 (fun _ => None) (fun _ => rs0).
+Definition init : state := mkState 0 (fun _ => inf0) 0 (fun _ => None) (fun _ => rs0) (fun _ => false).
 
 (* result of one operation *)
 Record sres := mkRes { r_st : state; r_out : list delivery; r_panic : bool }.
@@ -122,6 +125,8 @@ Definition has_own (s h : nat) (hs : list hent) : bool :=
 
 (* ---- the step function ---- *)
 Definition step (st : state) (o : op) : sres :=
+  (* every operation but Close leaves the closeOnce flags alone *)
+  let mkSt := fun a b c d e => mkState a b c d e (st_closed st) in
   match o with
   | Subscribe r =>
       let rs := st_rs st r in
@@ -161,22 +166,28 @@ Definition step (st : state) (o : op) : sres :=
       match st_sub st s with
       | None => mkRes st [] false
       | Some i =>
+          if st_closed st s then
+            (* closeOnce: a second Close through the same subscription does nothing *)
+            mkRes st [] false
+          else
+          let cl := upd (st_closed st) s true in
           let fi := st_inf st i in
           let r := i_res fi in
           let rs := st_rs st r in
           if 2 <=? rs_ref rs then
             (* count > 0: others are still using it *)
-            mkRes (mkSt (st_ninf st) (st_inf st) (st_nsub st) (st_sub st)
-                        (upd (st_rs st) r (mkRs (rs_cur rs) (rs_ref rs - 1) (rs_gen rs) (rs_store rs))))
+            mkRes (mkState (st_ninf st) (st_inf st) (st_nsub st) (st_sub st)
+                        (upd (st_rs st) r (mkRs (rs_cur rs) (rs_ref rs - 1) (rs_gen rs) (rs_store rs))) cl)
                   [] false
           else if i_stopped fi then
-            (* close(stopCh) of a closed channel, before any map is touched *)
-            mkRes st [] true
+            (* close(stopCh) of a closed channel, before any map is touched
+               (unreachable: C18_no_panic) *)
+            mkRes (mkState (st_ninf st) (st_inf st) (st_nsub st) (st_sub st) (st_rs st) cl) [] true
           else
-            mkRes (mkSt (st_ninf st)
+            mkRes (mkState (st_ninf st)
                         (upd (st_inf st) i (mkInf (i_res fi) true (i_cache fi) (i_hs fi)))
                         (st_nsub st) (st_sub st)
-                        (upd (st_rs st) r (mkRs None 0 (rs_gen rs) (rs_store rs))))
+                        (upd (st_rs st) r (mkRs None 0 (rs_gen rs) (rs_store rs))) cl)
                   [] false
       end
   | Event r k o =>
@@ -291,20 +302,6 @@ Fixpoint track_from (tr : tracker) (ops : list op) : tracker :=
   | o :: ops' => track_from (track_step tr o) ops'
   end.
 Definition track (ops : list op) : tracker := track_from tr0 ops.
-
-(* well-formed use of Close: only through a subscription that is open (exists and
-   has not been closed before) *)
-Definition wf_step (tr : tracker) (o : op) : bool :=
-  match o with
-  | Close s => is_open tr s
-  | _ => true
-  end.
-Fixpoint wf_from (tr : tracker) (ops : list op) : bool :=
-  match ops with
-  | [] => true
-  | o :: ops' => wf_step tr o && wf_from (track_step tr o) ops'
-  end.
-Definition wf_ops (ops : list op) : bool := wf_from tr0 ops.
 
 (* ---- vocabulary of the isolation theorem ---- *)
 (* the operations of subscription a that only concern its own handlers *)
